@@ -112,36 +112,51 @@ def x_memset(e, st, fr, a, name):
     return a[0]
 
 
-def _bytes_at(e, st, p, n, what):
+def _bytes_at(e, st, p, n, what, strict=True):
     p = _cptr(e, st, p, n, what)
     o = e.obj_of(st, p, what)
     if p.off < 0 or p.off + n > o.size:
         raise Violation('memory', "%s out of bounds: offset %d size %d in %s[%d]" % (what, p.off, n, o.name, o.size))
     cells = o.data[p.off:p.off + n]
-    for c in cells:
-        if c is None:
-            raise Violation('uninit', "%s reads uninitialised memory in %s" % (what, o.name))
+    if strict:
+        for c in cells:
+            if c is None:
+                raise Violation('uninit', "%s reads uninitialised memory in %s" % (what, o.name))
     return cells
 
 
 def x_memcmp(e, st, fr, a, name):
     n = _int(e, st, a[2], 'memcmp length')
     if n == 0: return 0
-    A = _bytes_at(e, st, a[0], n, name); B = _bytes_at(e, st, a[1], n, name)
-    if all(x.__class__ is int for x in A) and all(x.__class__ is int for x in B):
+    A = _bytes_at(e, st, a[0], n, name, False); B = _bytes_at(e, st, a[1], n, name, False)
+    if name == 'bcmp':
+        # any concretely different pair decides the result whatever the other bytes are
         for x, y in zip(A, B):
+            if x.__class__ is int and y.__class__ is int and x != y: return 1
+    out = []
+    for x, y in zip(A, B):
+        if x.__class__ is int and y.__class__ is int:
+            out.append((x, y))
+            if x != y: break      # memcmp: later bytes are irrelevant
+            continue
+        pair = []
+        for c in (x, y):
+            if c is None:
+                raise Violation('uninit', "%s reads uninitialised memory" % name)
+            if c.__class__ is tuple and c[0].__class__ in (Ptr, FnPtr):
+                e.ubnote(st, name + ' over bytes of a stored pointer (treated as unknown bytes)')
+                c = e.fresh(st, 8)
+            pair.append(c)
+        out.append(tuple(pair))
+    if all(x.__class__ is int and y.__class__ is int for x, y in out):
+        for x, y in out:
             if x != y: return (1 if x > y else -1) & mask(32)
         return 0
     if name == 'bcmp':
-        ne = []
-        for x, y in zip(A, B):
-            if x.__class__ is int and y.__class__ is int:
-                if x != y: return 1
-                continue
-            ne.append(e.byte_expr(x) != e.byte_expr(y))
+        ne = [e.byte_expr(x) != e.byte_expr(y) for x, y in out if not (x.__class__ is int and y.__class__ is int)]
         return z3.If(z3.Or(*ne) if len(ne) > 1 else ne[0], z3.BitVecVal(1, 32), z3.BitVecVal(0, 32))
     r = z3.BitVecVal(0, 32)
-    for x, y in reversed(list(zip(A, B))):
+    for x, y in reversed(out):
         if x.__class__ is int and y.__class__ is int:
             if x != y: r = z3.BitVecVal((1 if x > y else -1) & mask(32), 32)
             continue
@@ -268,19 +283,28 @@ def _nondet(w, kind):
 
 
 def x_vp_range(e, st, fr, a, name):
-    lo = sx(a[0], 32); hi = sx(a[1], 32)
+    lo, hi = a[0], a[1]
     k = len(st.inputs)
+    conc = lo.__class__ is int and hi.__class__ is int
+    if conc:
+        lo = sx(lo, 32); hi = sx(hi, 32)
     if e.concrete_inputs is not None:
+        if not conc: raise Inconclusive("vp_range with symbolic bounds in concrete mode")
         v = e.concrete_inputs[k] if k < len(e.concrete_inputs) else lo
         v = sx(v, 32)
         if v < lo or v > hi: raise PathEnd('assume')
         st.inputs.append(('in%d' % k, 'i32', v & mask(32))); return v & mask(32)
-    if lo == hi:
+    if conc and lo == hi:
         st.inputs.append(('in%d' % k, 'i32', lo & mask(32))); return lo & mask(32)
+    if conc and lo > hi:
+        raise PathEnd('assume')
     b = z3.BitVec('in%d' % k, 32)
     st.inputs.append(('in%d' % k, 'i32', b))
-    st.pc.append(z3.And(b >= lo, b <= hi))
-    st.model = None
+    c = z3.And(b >= (lo if conc else bv(lo, 32)), b <= (hi if conc else bv(hi, 32)))
+    if conc:
+        st.pc.append(c); st.model = None
+    else:
+        x_vp_assume(e, st, fr, [z3.If(c, z3.BitVecVal(1, 32), z3.BitVecVal(0, 32))], 'vp_assume')
     return b
 
 
